@@ -98,6 +98,7 @@ def _interleave_job(seed):
 
 
 def correspond(ctx, corr):
+    import dali.gear, dali.device  # noqa: the whole library, as applications import it (subclasses register themselves)
     from dali import address as A
     from dali.frame import ForwardFrame, Frame
     from dali.exceptions import IncompatibleFrame
@@ -211,6 +212,21 @@ def correspond(ctx, corr):
     corr.nontrivial(("refuse", "sizes"))
     # ---- equality over all ordered pairs ----
     alla = gear + dev
+    # benign observations on a random half of the objects first (use as a dict key, hash, str, repr, copy, vars):
+    # equality must depend on kind and number only, not on what was done to an object before
+    import copy
+    fresh_g, fresh_d = cc.all_addrs()
+    fresh_i, fresh_r = cc.all_insts()
+    for o in rng.sample(alla, len(alla) // 2) + rng.sample(insts + reserved, 100):
+        for obs in (hash, lambda x: {x: 1}, str, repr, copy.copy, vars, bool):
+            try:
+                obs(o)
+            except TypeError:
+                pass
+    for x, y in zip(alla + insts + reserved, fresh_g + fresh_d + fresh_i + fresh_r):
+        if not (x == y) or (x != y) or not (y == x):
+            corr.violate("address:eq-after-observation", "%s compared with a fresh equal object after hash/str/copy"
+                         % (cc.addr_tok(x) if isinstance(x, A.Address) else cc.inst_tok(x)), True, False)
     for x in alla:
         for y in alla:
             e = bool(x == y)
